@@ -355,14 +355,24 @@ fn h2_serve(conn: &mut Conn, h2: &mut super::h2::Endpoint, answered: &mut std::c
     for id in ready {
         answered.insert(id);
         let path = h2.streams[&id].header(":path").unwrap_or("/").to_owned();
-        let size = path.strip_prefix("/size/").and_then(|n| n.parse::<usize>().ok());
+        // `/nolen/<n>`: no content-length; `/nolenpad/<n>`: in addition every DATA frame is
+        // preceded by an empty DATA frame and by a DATA frame made of padding only
+        let nolen = path.strip_prefix("/nolen/").or_else(|| path.strip_prefix("/nolenpad/")).and_then(|n| n.parse::<usize>().ok());
+        let size = path.strip_prefix("/size/").and_then(|n| n.parse::<usize>().ok()).or(nolen);
+        if path.starts_with("/nolenpad/") {
+            h2.pad_streams.insert(id);
+        }
         let body = match size {
             Some(n) => super::h1::coded_body((n % 251) as u8, n),
             None => b"ok".to_vec(),
         };
         let len = body.len().to_string();
         let sid = id.to_string();
-        let hs = h2.encode_headers(id, &[(":status", "200"), ("content-length", &len), ("x-stream", &sid)], body.is_empty(), None);
+        let hs = if nolen.is_some() {
+            h2.encode_headers(id, &[(":status", "200"), ("x-stream", &sid)], body.is_empty(), None)
+        } else {
+            h2.encode_headers(id, &[(":status", "200"), ("content-length", &len), ("x-stream", &sid)], body.is_empty(), None)
+        };
         conn.tx.extend_from_slice(&hs);
         if !body.is_empty() {
             pending.push((id, body, 0));
@@ -377,6 +387,15 @@ fn h2_serve(conn: &mut Conn, h2: &mut super::h2::Endpoint, answered: &mut std::c
         }
         loop {
             let left = body.len() - *off;
+            let padded = h2.pad_streams.contains(id);
+            if padded && h2.sendable(*id) < 5 {
+                break;
+            }
+            if padded && left > 0 {
+                conn.tx.extend_from_slice(&super::h2::frame(super::h2::DATA, 0, *id, &[]));
+                conn.tx.extend_from_slice(&super::h2::frame(super::h2::DATA, super::h2::F_PADDED, *id, &[3, 0, 0, 0]));
+                h2.consume_send_window(*id, 4);
+            }
             let n = left.min(max).min(h2.sendable(*id));
             if n == 0 {
                 break;
@@ -740,6 +759,25 @@ impl Peer {
                                 served[ci] += 1;
                                 c.pump_write();
                                 c.close();
+                                progressed = true;
+                                continue;
+                            }
+                            // `/chunked/<n>/<k>`: an n-byte coded body in chunks of k bytes
+                            let chunked_req = msgs[served[ci]].target().strip_prefix("/chunked/").and_then(|r| {
+                                let mut it = r.split('/');
+                                Some((it.next()?.parse::<usize>().ok()?, it.next()?.parse::<usize>().ok()?))
+                            });
+                            if let Some((n, k)) = chunked_req {
+                                let body = super::h1::coded_body((n % 251) as u8, n);
+                                let mut r = format!("{response_head}\r\nX-Seq: {ci}.{}\r\nTransfer-Encoding: chunked\r\n\r\n", served[ci]).into_bytes();
+                                for piece in body.chunks(k.max(1)) {
+                                    r.extend_from_slice(format!("{:x}\r\n", piece.len()).as_bytes());
+                                    r.extend_from_slice(piece);
+                                    r.extend_from_slice(b"\r\n");
+                                }
+                                r.extend_from_slice(b"0\r\n\r\n");
+                                c.tx.extend_from_slice(&r);
+                                served[ci] += 1;
                                 progressed = true;
                                 continue;
                             }
